@@ -31,7 +31,7 @@ ASCII_STRS = ["a", "x y", 'q"r', "line\nbreak", "a,b;c|d\te", "zz"]
 def gen_frame(rng, fmt, enc):
     n = rng.choice([1, 2, 3, 5])
     ncol = rng.choice([1, 2, 3, 4])
-    kinds_ok = {"pickle": ["bool", "int", "float", "str", "date", "datetime", "timedelta"],
+    kinds_ok = {"pickle": ["bool", "int", "float", "str", "date", "datetime", "timedelta", "objstr", "objstr"],
                 "npz": ["bool", "int", "float", "str", "date", "datetime"],
                 "parquet": ["bool", "int", "float", "str", "date", "datetime"],
                 "csv": ["bool", "int", "float", "str", "date"], "json": ["bool", "int", "float", "str"]}[fmt]
@@ -41,6 +41,11 @@ def gen_frame(rng, fmt, enc):
         if kind == "str":
             pool = STRS if enc in ("utf-8", "utf-16") else ["a", "ä", "x y", 'q"r', "line\nbreak", "a,b;c|d\te"]
             vals = [rng.choice(pool + [""]) for _ in range(n)]
+            if rng.random() < 0.25 and fmt != "csv":
+                # text that LOOKS like something else (dates, numbers, booleans): it is text, and comes back as text
+                # (not in CSV, which has no types: there the reader's inference is the documented behaviour)
+                look = rng.choice([["2024-02-29", "2024-03-01", "2024-03-15"], ["2024-02-29", "1999-12-31"], ["007", "1e3", "10"], ["True", "False"], ["NaN", "null", "None"]])
+                vals = [rng.choice(look + [""]) for _ in range(n)]
             if all(v == "" for v in vals) and fmt == "csv":
                 vals[0] = "a"
         elif kind == "float":
@@ -57,6 +62,8 @@ def gen_frame(rng, fmt, enc):
                 vals[0] = 0
         elif kind == "datetime":
             vals = [rng.choice([0, 1600000000000000, None]) for _ in range(n)]
+        elif kind == "objstr":
+            vals = [rng.choice(["first", "x", "last", None]) for _ in range(n)]
         else:
             vals = [rng.choice([0, 5, None]) for _ in range(n)]
         if fmt == "csv" and ncol == 1:
